@@ -17,7 +17,7 @@ fail (division by a zero element count in from_linear) return `Option`, as the h
 import os, re, sys, json
 sys.path.insert(0, os.path.dirname(os.path.abspath(__file__)))
 import gen_layout as GL
-from gen_layout import TranslateError, paren, L_render, L_field, L_sub
+from gen_layout import TranslateError, paren, L_render, L_field, L_sub, canon2
 
 HERE = GL.HERE
 OUT = os.path.join(HERE, "lean/MultiModel/Gen/IterGen.lean")
@@ -218,10 +218,13 @@ class It(GL.Interp):
                 return ("bool", "sameObject" if k == "==" else "(!sameObject)")
             a, b = self.eval(e[1]), self.eval(e[2])
             if a[0] == "ptrD" and b[0] == "ptrD":
+                if canon2(paren(a[1]), paren(b[1]))[0] != paren(a[1]):
+                    a, b = b, a
                 t = f"(({paren(a[1])} == {paren(b[1])}) && ({paren(L_render(a[2]))} == {paren(L_render(b[2]))}))"
                 return ("bool", t if k == "==" else f"(!{t})")
             if a[0] in ("elist", "etuple") and b[0] in ("elist", "etuple"):
-                t = f"(Exts.eqv {paren(a[1])} {paren(b[1])})"    # tuple equality of ranges, element by element
+                x, y = canon2(paren(a[1]), paren(b[1]))
+                t = f"(Exts.eqv {x} {y})"    # tuple equality of ranges, element by element
                 return ("bool", t if k == "==" else f"(!{t})")
             if a[0] == "lvref":
                 a = self.read_lv(a[1])
@@ -230,7 +233,8 @@ class It(GL.Interp):
             if a[0] in ("int", "bool") and b[0] in ("int", "bool"):
                 if a[0] == "bool" or b[0] == "bool":
                     return ("bool", f"({paren(self.as_bool(a))} {k} {paren(self.as_bool(b))})")
-                return ("bool", f"({paren(a[1])} {k} {paren(b[1])})")
+                x, y = canon2(paren(a[1]), paren(b[1]))
+                return ("bool", f"({x} {k} {y})")
         if k in ("+", "-"):
             a, b = self.eval(e[1]), self.eval(e[2])
             if a[0] == "rec" and b[0] == "rec" and k == "-":
